@@ -331,6 +331,13 @@ AddDataFails(o, n) ==
          /\ last' = [act |-> "AddDataFails", args |-> [s |-> s, p |-> o, n |-> n], out |-> "ValueError", foot |-> {s}]
     /\ UNCHANGED <<pg, fpg, flink, held, mode, saved, w2, w2pg>>
 
+\* a creation that is refused BEFORE anything is attached (add_data with an association the format does not know):
+\* nothing changes - in particular the children the object already has stay where they are
+AddDataRefused(o, n) ==
+    /\ Do("AddDataRefused") /\ Writable /\ o \in Att \cap OS /\ o \notin dirty
+    /\ Refused("AddDataRefused", [p |-> o, n |-> n], "ValueError")
+    /\ UNCHANGED <<mem, kids, pg, reg, fnode, flink, fpg, held, mode, Aux>>
+
 \* a foreign writer (or an older version) may omit optional scalar attributes of a node: the harness strips them with
 \* raw h5py while the workspace is closed.  Nothing but a rewrite of that node's attributes may bring them back (C09).
 StripOpt(s) ==
@@ -789,6 +796,7 @@ Step ==
     \/ \E c \in GS \cup OS, x \in ES \cup PS : RemoveNotAChild(c, x)
     \/ \E x \in GS, q \in GS : CopyIntoSelf(x, q)
     \/ \E c \in Cont, x \in ES, y \in ES \cup PS : RemovePair(c, x, y)
+    \/ \E o \in OS, n \in Names : AddDataRefused(o, n)
     \/ \E o \in OS, n \in Names, v \in Vals, e \in DS : AddDataLike(o, n, v, e)
 
 CmodeUpdate == cmode' = IF last'.act = "Open" /\ last'.args.fresh THEN last'.args.m ELSE cmode
